@@ -13,6 +13,7 @@ import random
 from common import run_tlc, tlc_must_pass, printed_json, validate_events, Infra, isolated, isolated_many
 from lib import Lib, MASK_NONE, MASK_GENERIC
 import progs
+import vecops
 from props import c02, c08, c13, c16
 
 LEVEL = "model_checking"
@@ -95,6 +96,100 @@ def drive_overlap(rec, quick):
     rec.data["ok"] = len(events)
 
 
+def drive_adjacent(rec, quick):
+    """operands carved back to back from ONE allocation (no gap between the output and a source, in both orders): no byte is shared, so
+    every source must keep its bytes and the output must be what separate allocations give"""
+    import numpy as np
+    from lib import Buf, FFT64, NTT120
+    rng = random.Random(rec.seed * 19 + 11)
+    L = Lib.get()
+    events = []
+
+    def small(n, bits):
+        return np.array([rng.randrange(-(1 << bits), 1 << bits) for _ in range(n)], dtype=np.int64).view(np.uint8)
+
+    for n in ([8, 64] if quick else [2, 4, 8, 16, 64, 256]):
+        for mk, mt, mask in (("fft64", FFT64, MASK_NONE), ("fft64-generic", FFT64, MASK_GENERIC), ("ntt120", NTT120, MASK_NONE)):
+            mod = L.module(n, mt, mask)
+            L.set_cpu_mask(MASK_NONE)
+            dftb, bigb = (8 * n, 8 * n) if mt == FFT64 else (32 * n, 16 * n)
+            # one prepared DFT vector (2 limbs) as source material
+            A0 = Buf(8 * 2 * n)
+            A0.u8[:] = small(2 * n, 20)
+            D0 = Buf(dftb * 2)
+            L.call("vec_znx_dft", mod, D0, 2, A0, 2, n)
+            ops = []      # (label, [(name, role, initial bytes)], call(addresses, tmp))
+            ops.append(("vec_znx_dft", [("res", "res", np.full(dftb * 2, 0x3B, dtype=np.uint8)), ("a", "src", A0.u8.copy())],
+                        lambda ad, t: L.call("vec_znx_dft", mod, ad["res"], 2, ad["a"], 2, n), 0))
+            ops.append(("vec_znx_idft", [("res", "res", np.full(bigb * 2, 0x3B, dtype=np.uint8)), ("a", "src", D0.u8.copy())],
+                        lambda ad, t: L.call("vec_znx_idft", mod, ad["res"], 2, ad["a"], 2, t), L.call("vec_znx_idft_tmp_bytes", mod)))
+            for op in ("add", "sub", "rotate", "automorphism", "copy", "negate"):
+                ops.append(("vec_znx_" + op, [("res", "res", np.full(8 * 2 * n, 0x3B, dtype=np.uint8)), ("a", "src", small(2 * n, 40)), ("b", "src", small(2 * n, 40))],
+                            (lambda op_: lambda ad, t: vecops.call_op(L, mod, op_, 5, ad["res"], 2, n, ad["a"], 2, n, ad["b"], 2, n))(op), 0))
+            ops.append(("vec_znx_normalize_base2k", [("res", "res", np.full(8 * 2 * n, 0x3B, dtype=np.uint8)), ("a", "src", small(3 * n, 50))],
+                        lambda ad, t: L.call("vec_znx_normalize_base2k", mod, 12, ad["res"], 2, n, ad["a"], 3, n, t), L.call("vec_znx_normalize_base2k_tmp_bytes", mod)))
+            if mt == FFT64:
+                P0 = Buf(L.call("bytes_of_svp_ppol", mod))
+                pol = Buf(8 * n)
+                pol.u8[:] = small(n, 10)
+                L.call("svp_prepare", mod, P0, pol)
+                ops.append(("svp_apply_dft", [("res", "res", np.full(dftb * 2, 0x3B, dtype=np.uint8)), ("ppol", "src", P0.u8.copy()), ("a", "src", small(2 * n, 10))],
+                            lambda ad, t: L.call("svp_apply_dft", mod, ad["res"], 2, ad["ppol"], ad["a"], 2, n), 0))
+                ops.append(("znx_small_single_product", [("res", "res", np.full(8 * n, 0x3B, dtype=np.uint8)), ("a", "src", small(n, 12)), ("b", "src", small(n, 12))],
+                            lambda ad, t: L.call("znx_small_single_product", mod, ad["res"], ad["a"], ad["b"], t), L.call("znx_small_single_product_tmp_bytes", mod)))
+                for op in ("big_add", "big_sub"):
+                    ops.append(("vec_znx_" + op, [("res", "res", np.full(8 * 2 * n, 0x3B, dtype=np.uint8)), ("a", "src", small(2 * n, 40)), ("b", "src", small(2 * n, 40))],
+                                (lambda op_: lambda ad, t: vecops.call_op(L, mod, op_, 5, ad["res"], 2, n, ad["a"], 2, n, ad["b"], 2, n))(op), 0))
+                ops.append(("vec_znx_big_normalize_base2k", [("res", "res", np.full(8 * 2 * n, 0x3B, dtype=np.uint8)), ("a", "src", small(3 * n, 50))],
+                            lambda ad, t: L.call("vec_znx_big_normalize_base2k", mod, 12, ad["res"], 2, n, ad["a"], 3, t), L.call("vec_znx_big_normalize_base2k_tmp_bytes", mod)))
+                M0 = Buf(L.call("bytes_of_vmp_pmat", mod, 2, 2))
+                mat = Buf(8 * n * 4)
+                mat.u8[:] = small(4 * n, 8)
+                tp = Buf(L.call("vmp_prepare_contiguous_tmp_bytes", mod, 2, 2))
+                L.call("vmp_prepare_contiguous", mod, M0, mat, 2, 2, tp)
+                ops.append(("vmp_apply_dft_to_dft", [("res", "res", np.full(dftb * 2, 0x3B, dtype=np.uint8)), ("a", "src", D0.u8.copy()), ("pmat", "src", M0.u8.copy())],
+                            lambda ad, t: L.call("vmp_apply_dft_to_dft", mod, ad["res"], 2, ad["a"], 2, ad["pmat"], 2, 2, t),
+                            L.call("vmp_apply_dft_to_dft_tmp_bytes", mod, 2, 2, 2, 2)))
+            for label, operands, fn, tmpb in ops:
+                # reference: separate allocations
+                sep = {nm: Buf(len(b)) for nm, _, b in operands}
+                for nm, _, b in operands:
+                    sep[nm].u8[:] = b
+                T = Buf(tmpb, fill=0xEE)
+                if not rec.progress("%s[%s] N=%d separate allocations" % (label, mk, n)):
+                    continue
+                fn({nm: sep[nm].addr for nm in sep}, T.addr)
+                ref = sep["res"].u8.copy()
+                for order in (operands, operands[::-1]):
+                    total = sum(len(b) for _, _, b in order)
+                    B = Buf(total, fill=0)
+                    ad, pos = {}, 0
+                    for nm, _, b in order:
+                        ad[nm] = (pos, len(b))
+                        B.u8[pos:pos + len(b)] = b
+                        pos += len(b)
+                    T = Buf(tmpb, fill=0xEE)
+                    what = "%s[%s] N=%d operands back to back in the order %s" % (label, mk, n, [nm for nm, _, _ in order])
+                    if not rec.progress(what):
+                        continue
+                    fn({nm: B.addr + ad[nm][0] for nm in ad}, T.addr)
+                    rec.case(("adjacent", label, mk, order is operands))
+                    if not (B.canaries_ok() and T.canaries_ok()):
+                        rec.violation(what + ": write outside the allocation", {})
+                        continue
+                    objs = []
+                    for nm, role, b in order:
+                        o, ln = ad[nm]
+                        now = B.u8[o:o + ln]
+                        objs.append([nm, role, bool(not np.array_equal(now, b)) if role == "src" else bool(not np.array_equal(now, ref))])
+                    # for the output, "changed" means: differs from what separate allocations produce (reported under the role "other")
+                    objs = [[nm, (role if role == "src" else "other"), ch] for nm, role, ch in objs]
+                    events.append({"e": "Step", "op": label, "objs": objs, "_what": what})
+            L.delete_module(mod)
+    rec.data["events"] = events
+    rec.data["ok"] = len(events)
+
+
 def run(chk, replay=None):
     quick = chk.tier == "quick"
     Lib.get()
@@ -131,6 +226,9 @@ def run(chk, replay=None):
     d = isolated(chk, "pointwise kernels with operand snapshots", c13.drive_pw_a, (printed_json(r, "CASE"),), timeout=600)
     chk.traces += d["ok"] if d else 0
     d = isolated(chk, "res == a with different strides (overlapping limb vectors)", drive_overlap, (quick,), timeout=900)
+    if d:
+        events += d["events"]
+    d = isolated(chk, "operands back to back in one allocation", drive_adjacent, (quick,), timeout=900)
     if d:
         events += d["events"]
     # direction B
